@@ -164,6 +164,11 @@ package httpserver
 //@ extern (*bytes.Buffer).Len
 //@   pure reads ghost:blen
 //@   ensures result == blen(b)
+//@ extern (*bytes.Buffer).Bytes
+//@   ensures len(result) == blen(b)
+//@ extern (*bytes.Buffer).Next
+//@   modifies ghost:blen
+//@   ensures n <= old(blen(b)) ==> blen(b) == old(blen(b)) - n
 //@ extern io.ReadFull
 //@   modifies ghost:blen
 //@   ensures result1 == nil ==> (result0 == len(buf) && blen(r) == old(blen(r)) - len(buf))
